@@ -5,6 +5,8 @@ import (
 	"reflect"
 
 	"github.com/go-kid/ioc/container/support"
+	p1model "verifharness/world/p1/model"
+	p2model "verifharness/world/p2/model"
 	"verifharness/core"
 	"verifharness/world"
 )
@@ -34,6 +36,10 @@ func (p c07) Run(c *core.Ctx) {
 		p.dup(c)
 		return
 	}
+	if c.Index%8 == 7 {
+		p.preset(c)
+		return
+	}
 	// few types => many same-typed providers
 	pool := world.TypesAll
 	k := 2 + c.Rng.Intn(5)
@@ -55,8 +61,21 @@ func (p c07) Run(c *core.Ctx) {
 	for h := 0; h < c.Rng.Intn(3); h++ {
 		holders = append(holders, literalNameHolder(c, h, g.Sc, mixName, mixOther))
 	}
-	repairUnsatisfiable(c, g, holders, 0.85)
-	runModelCase(c, g, holders, 3, true, classifyC07)
+	// components of equally named types from two packages with the same base name: their default names
+	// (package path + type name) differ, by-name points must tell them apart
+	var providers []any
+	if c.Rng.Intn(4) == 0 {
+		providers = append(providers, &p1model.Item{Tag: "p1"}, &p2model.Item{Tag: "p2"})
+		fields := []world.FieldSpec{
+			{Name: "M1", Type: world.TypeIA, Tag: world.WireTag("wire", "verifharness/world/p1/model/Item")},
+			{Name: "M2", Type: world.TypeAny, Tag: world.WireTag("wire", "verifharness/world/p2/model/Item")},
+			{Name: "P1", Type: reflect.TypeOf(&p1model.Item{}), Tag: world.WireTag("wire", "")},
+			{Name: "P2", Type: reflect.TypeOf(&p2model.Item{}), Tag: world.WireTag("wire", "verifharness/world/p2/model/Item")},
+		}
+		holders = append(holders, world.NewHolder(world.BuildStruct(fields)))
+	}
+	repairUnsatisfiable(c, g, holders, 0.85, providers...)
+	runModelCase(c, g, holders, 3, true, classifyC07, providers)
 }
 
 func literalNameHolder(c *core.Ctx, id int, sc *world.Scenario, mixName, mixOther TagMix) any {
@@ -216,3 +235,56 @@ func (p c07) dup(c *core.Ctx) {
 }
 
 func order2sig(a, b, c int) string { return fmt.Sprintf("%d/%d/%d", a, b, c) }
+
+// preset: optional by-name points that cannot be satisfied keep whatever the user put into the field
+// before the start - also when the holder's creation fails once and is attempted again.
+func (p c07) preset(c *core.Ctx) {
+	g := world.NewG(c.Rng)
+	holderType := []int{8, 0, 14, 12}[c.Rng.Intn(4)] // lazy and eager holders
+	h := g.AddNode(holderType, "holder")
+	dep := g.AddNode([]int{1, 8}[c.Rng.Intn(2)], []string{"dep", "zdep"}[c.Rng.Intn(2)]) // eager T01 / lazy T08 (both IA with Init); before or after the holder in name order
+	depName := g.Sc.Nodes[dep].DisplayName()
+	g.AddNode(2, "other")
+	g.SetTag(h, "IA0", "wire", []string{"no-such-name", "other"}[c.Rng.Intn(2)]+",required=false") // absent / not assignable (T02 is no IA)
+	g.SetTag(h, "Any0", "wire", "no-such-name-2,required=false")
+	g.SetTag(h, "P05", "wire", depName+",required=false") // present but not assignable to *T05
+	g.SetTag(h, "IA1", "wire", depName)
+	transient := c.Rng.Intn(2) == 0
+	if transient {
+		g.Sc.Nodes[dep].FailOnce = []string{"init"}
+	}
+	g.ShuffleOrders()
+	r := world.Build(g.Sc, world.Options{})
+	sentinelA, sentinelAny, sentinelP := &world.T26{}, &world.T02{}, &world.T05{}
+	sl := r.Nodes[h].Slot()
+	sl.IA0, sl.Any0, sl.P05 = sentinelA, sentinelAny, sentinelP
+	r.Go()
+	c.Count("starts", 1)
+	c.Count("preset_cases", 1)
+	detail := func() map[string]any { return failDetail(g.Sc, r, map[string]any{"transient_dependency_failure": transient}) }
+	if abnormal(r.Outcome()) {
+		c.Fail("", "start with pre-set optional fields: "+r.OutcomeDetail(), detail())
+		return
+	}
+	var lastErr error
+	for round := 0; round < 3; round++ {
+		r.Guard(func() { _, lastErr = r.App.GetComponentByName("holder") })
+		if r.Panic != nil || r.Diverge != nil {
+			c.Fail("", "lookup of the holder: "+r.OutcomeDetail(), detail())
+			return
+		}
+	}
+	if lastErr != nil {
+		c.Fail("", "the holder cannot be created although its only required dependency is available: "+core.Short(lastErr.Error(), 200), detail())
+		return
+	}
+	if sl.IA0 != world.IA(sentinelA) || sl.Any0 != any(sentinelAny) || sl.P05 != sentinelP {
+		c.Fail("", fmt.Sprintf("optional unsatisfiable by-name points were modified: IA0=%v (pre-set %p) Any0=%v (pre-set %p) P05=%p (pre-set %p)", sl.IA0, sentinelA, sl.Any0, sentinelAny, sl.P05, sentinelP), detail())
+		return
+	}
+	if n, ok := sl.IA1.(world.Node); !ok || n.DisplayName() != depName {
+		c.Fail("", "the required by-name point of the holder was not wired to 'dep'", detail())
+		return
+	}
+	c.Nontrivial(fmt.Sprintf("preset:%d:%v:%s", holderType, transient, g.Sc.GraphSig()))
+}
